@@ -236,6 +236,9 @@ fn explore(args: &[String]) {
         let strat = if fam == "pin" && rng.chance(5, 6) {
             Strategy::Script(vec![Ph::UntilThreads(0, 3), Ph::Steps(1, 3 + rng.below(6)), Ph::ToEnd(2), Ph::Steps(1, 1 + rng.below(5)), Ph::Steps(0, 8 + rng.below(10))])
         } else { strat };
+        let strat = if fam == "pinf" && rng.chance(5, 6) {
+            Strategy::Script(vec![Ph::UntilThreads(0, 3), Ph::Steps(1, 7 + rng.below(6)), Ph::ToEnd(2), Ph::ToEnd(0), Ph::ToEnd(1)])
+        } else { strat };
         let strat = match sw { Some((t, at, _)) => Strategy::Stall { victim: t, at }, None => strat };
         let sname = match &strat {
             Strategy::Random => "random".to_string(),
